@@ -161,11 +161,36 @@ def _float_consts():
     return Fraction(single), Fraction(double), Fraction(nb)
 
 
+def gen_fmm_kernels():
+    """Gen/FmmKernels.lean: traces of the Numba FMM helper kernels (api/fmm/helpers.py) and of the Numba shapesets.  Used by
+    C20 (OpenCL = Numba) and by C17 (near-field kernels = the dense assembler's kernels, Lemmas/FmmKernelFacts.lean)."""
+    fmm = _trace_fmm_helpers()
+    shp = _trace_shapesets()
+    lines = [
+        "-- GENERATED by props/c20.py by tracing bempp_cl/api/fmm/helpers.py and api/space/shapesets.py -- do not edit",
+        "import Mathlib.Algebra.Field.Defs",
+        "namespace BemppVerif.Gen.FmmKernels",
+        "set_option linter.unusedVariables false",
+        "",
+    ]
+    FARGS = "x0 x1 x2 y0 y1 y2 p0 p1"
+    for (name, branch), comps in sorted(fmm.items()):
+        for i, (re_, im_) in enumerate(comps):
+            lines.append(f"def fmm_{name}_{branch}_c{i}_re {{K : Type}} [Field K] (sqrt cos sin exp : K → K) (c4pi : K) ({FARGS} : K) : K :=\n  " + st.to_lean(re_))
+            lines.append(f"def fmm_{name}_{branch}_c{i}_im {{K : Type}} [Field K] (sqrt cos sin exp : K → K) (c4pi : K) ({FARGS} : K) : K :=\n  " + st.to_lean(im_))
+    for name, comps in sorted(shp.items()):
+        for (c, i), term in sorted(comps.items()):
+            lines.append(f"def nb_shape_{name}_c{c}_f{i} {{K : Type}} [Field K] (u v : K) : K :=\n  " + st.to_lean(term))
+    lines += ["end BemppVerif.Gen.FmmKernels", ""]
+    ch2 = T.write_if_changed(os.path.join(LEAN, "BemppVerif/Gen/FmmKernels.lean"), "\n".join(lines))
+
+    return fmm, shp, ch2
+
+
 def generate(ctx):
     info, nb = kernels_gen.generate()
     cl, knames, snames = cl_gen.trace_all()
-    fmm = _trace_fmm_helpers()
-    shp = _trace_shapesets()
+    fmm, shp, ch2 = gen_fmm_kernels()
     try:
         nk_tree = T.parse("bempp_cl/core/numba_kernels.py")
         ck_tree = T.parse("bempp_cl/core/opencl_kernels.py")
@@ -226,25 +251,6 @@ def generate(ctx):
             lines.append(f"def cl_{sname}_s{slot} {{K : Type}} [Field K] (u v : K) : K :=\n  " + st.to_lean(term))
     lines += ["end BemppVerif.Gen.ClKernels", ""]
     ch1 = T.write_if_changed(os.path.join(LEAN, "BemppVerif/Gen/ClKernels.lean"), "\n".join(lines))
-    # ---- FMM helper + numba shapeset definitions
-    lines = [
-        "-- GENERATED by props/c20.py by tracing bempp_cl/api/fmm/helpers.py and api/space/shapesets.py -- do not edit",
-        "import Mathlib.Algebra.Field.Defs",
-        "namespace BemppVerif.Gen.FmmKernels",
-        "set_option linter.unusedVariables false",
-        "",
-    ]
-    FARGS = "x0 x1 x2 y0 y1 y2 p0 p1"
-    for (name, branch), comps in sorted(fmm.items()):
-        for i, (re_, im_) in enumerate(comps):
-            lines.append(f"def fmm_{name}_{branch}_c{i}_re {{K : Type}} [Field K] (sqrt cos sin exp : K → K) (c4pi : K) ({FARGS} : K) : K :=\n  " + st.to_lean(re_))
-            lines.append(f"def fmm_{name}_{branch}_c{i}_im {{K : Type}} [Field K] (sqrt cos sin exp : K → K) (c4pi : K) ({FARGS} : K) : K :=\n  " + st.to_lean(im_))
-    for name, comps in sorted(shp.items()):
-        for (c, i), term in sorted(comps.items()):
-            lines.append(f"def nb_shape_{name}_c{c}_f{i} {{K : Type}} [Field K] (u v : K) : K :=\n  " + st.to_lean(term))
-    lines += ["end BemppVerif.Gen.FmmKernels", ""]
-    ch2 = T.write_if_changed(os.path.join(LEAN, "BemppVerif/Gen/FmmKernels.lean"), "\n".join(lines))
-
     # ---- theorems
     TH = [
         "-- GENERATED by props/c20.py -- do not edit.  One theorem per OpenCL kernel function / branch / slot / class.",
